@@ -1,6 +1,7 @@
 """C02 — CIDR bit identities, setters, mask predicates.
 Ops: net_attrs ver v p ; net_sets ver v p [setter ops] ; mask_pred ver v"""
 from common import Case, W, value_classes, rand_value, errname, plist, tf, optint
+import common
 import netaddr
 from netaddr import IPNetwork, IPAddress
 
@@ -100,7 +101,7 @@ def generate(rng, tier):
 
 
 def _net(ver, v, p):
-    return IPNetwork((v, p), version=ver)
+    return common.make_net(ver, v, p)
 
 
 def _show(n):
